@@ -226,6 +226,13 @@ def schedules(p: Dict[str, Any]) -> List[List[int]]:
 
 # --------------------------------------------------------------------------- real build + observation
 
+def waiting_modules(system: Any) -> List[Any]:
+    """The modules waiting to be analysed, in order - whatever container the System keeps them in (observation through behaviour:
+    a list today, a mapping by name would do as well)."""
+    um = system.unprocessed_modules
+    return list(um.values()) if isinstance(um, dict) else list(um)
+
+
 def comp(name: str) -> Dict[str, Any]:
     """'C 0' -> {b: 'C', d: 1};  'C' -> {b: 'C', d: 0}"""
     if " " in name:
